@@ -196,7 +196,9 @@ pub struct Exec {
     writer_failed: bool,
     accepted_after_db: usize,
     // ---- observation ----
-    samples: Vec<(Sample, usize, bool)>, // (sample, delivered.len() then, taken after the terminal event)
+    samples: Vec<(Sample, usize, bool, usize)>, // (sample, delivered.len() then, taken after the terminal event, data frames seen then)
+    /// data frames delivered so far, empty ones included
+    frames_seen: usize,
     pub terminal_seen: Option<Obs>,
     polls_after_terminal: usize,
     pending_since_abort: bool,
@@ -300,6 +302,7 @@ impl Exec {
             writer_failed: false,
             accepted_after_db: 0,
             samples: Vec::new(),
+            frames_seen: 0,
             terminal_seen: None,
             polls_after_terminal: 0,
             pending_since_abort: false,
@@ -367,7 +370,7 @@ impl Exec {
         let mut panicked = false;
         if let Some(p) = &self.p {
             match p.sample() {
-                Ok(s) => self.samples.push((s, self.delivered.len(), self.terminal_seen.is_some())),
+                Ok(s) => self.samples.push((s, self.delivered.len(), self.terminal_seen.is_some(), self.frames_seen)),
                 Err(m) => {
                     self.out.push(fnd(&["C12", "C13"], "hint-panic", format!("size_hint/is_end_stream panicked: {m}")));
                     panicked = true;
@@ -519,6 +522,7 @@ impl Exec {
                 if v.is_empty() {
                     self.out.push(fnd(&["C08", "C09"], "empty-frame", "the body yielded an empty data frame".to_string()));
                 }
+                self.frames_seen += 1;
                 self.delivered.extend_from_slice(v);
                 if !self.gz {
                     let d = self.delivered.len();
@@ -714,7 +718,8 @@ impl Exec {
         let clean = matches!(self.terminal_seen, Some(Obs::End));
         let total = self.delivered.len();
         let mut found = Vec::new();
-        for (i, (s, at, after)) in self.samples.iter().enumerate() {
+        let frames_total = self.frames_seen;
+        for (i, (s, at, after, frames_at)) in self.samples.iter().enumerate() {
             let rem = (total - at) as u64;
             if clean {
                 if s.lower > rem {
@@ -732,8 +737,11 @@ impl Exec {
                 // nothing but a clean end may follow: no bytes, no error
                 let later_bytes = rem > 0;
                 let later_err = !after && matches!(self.terminal_seen, Some(Obs::Err(_)));
-                if later_bytes || later_err {
-                    found.push(fnd(&["C12", "C11"], "stream-is-end-lie", format!("sample {i}: is_end_stream() was true, yet {} followed", if later_bytes { "data" } else { "an error" })));
+                // a queued chunk is a chunk, even an empty one: "never says so while chunks ...
+                // are still undelivered"
+                let later_frame = frames_total > *frames_at;
+                if later_bytes || later_err || later_frame {
+                    found.push(fnd(&["C12", "C11"], "stream-is-end-lie", format!("sample {i}: is_end_stream() was true, yet {} followed", if later_bytes { "data" } else if later_err { "an error" } else { "a (zero-length) data frame that was still queued" })));
                     break;
                 }
             }
